@@ -17,6 +17,7 @@ CONSTANTS
   MaxSweep = 0
   MaxLeave = 0
   MaxPubB = 0
+  MaxCmd = 0
 CONSTRAINT HighWater
 POSTCONDITION Accept
 CHECK_DEADLOCK FALSE
